@@ -582,3 +582,100 @@ Print Assumptions C15_other_digest_other_entry.
 Print Assumptions C15_different_requests_separate_entries.
 Print Assumptions C15_recorded_signatures_verify_over_their_digest.
 Print Assumptions C15_published_signatures_are_over_its_own_digest.
+
+(* ================================================================================================================================
+   Extension X10 - the end-to-end statement for ANY quorum subset of a LARGER guardian set (proofs/ClosureProofs4.v).  In
+   C15_governance_end_to_end the operators S are any >= quorum honest members of G; the corollary spells the situation out: the set
+   in force consists of the operators' keys and any list [rest] of further members, in any order; NOTHING is assumed about [rest] -
+   no node, no signer, no delivery -: they may stay silent, and whatever the adversary sends in their name (or anyone's) is an
+   admissible step of the pre-history and of the window (C15_e2e_adversarial_steps_are_admissible).  The operators suffice as soon
+   as twice the number of the others is below their own number (Go's quorum formula, C07). *)
+From Coq Require Import Sorting.Permutation.
+From WH Require Import proofs.ClosureProofs4.
+
+Theorem C15_e2e_adversarial_steps_are_admissible : forall keccak v x,
+  (match x with NAdv _ _ | NDeliver _ _ | NLoop _ _ => True | NEnv _ _ => False end) ->
+  nop_wf x /\ calm_nop x = true /\ no_alias_nop keccak v x.
+Proof. exact adversarial_step_admissible. Qed.
+
+Theorem C15_e2e_operators_are_a_quorum_of_the_larger_set : forall s r : nat, (2 * r < s)%nat -> go_quorum (Z.of_nat (s + r)) <= Z.of_nat s.
+Proof. exact quorum_of_larger_set. Qed.
+
+Theorem C15_governance_end_to_end_any_quorum_subset :
+  forall recover keccak gov_chain gov_addr owns signs, (forall b, length (keccak b) = 32%nat) ->
+  forall N xs0 xs i G (S : list nat) (rest : list addr) k c e v local tseq r,
+  (i < N)%nat -> Forall nop_wf xs0 -> Forall nop_wf xs ->
+  let stp := fun n x => fst (nstep recover keccak gov_chain gov_addr owns signs n x) in
+  let n0 := fst (nrun recover keccak gov_chain gov_addr owns signs (ninit N) xs0) in
+  let n1 := fst (nrun recover keccak gov_chain gov_addr owns signs n0 xs) in
+  let h := dg keccak v in
+  envelope_ok c e v -> req_wf c e -> payload v <> [] -> accepted_by (module_of k) (action_of k) c e v ->
+  (forall st0, nth_error (nodes n0) i = Some st0 -> cur st0 = Some G /\ alookup h (agg st0) = None) -> gs_wf G ->
+  (forall x, In x xs -> target x = i -> calm_nop x = true) ->
+  (forall x, In x xs -> target x = i -> no_alias_nop keccak v x) ->
+  Permutation (keys G) (map owns S ++ rest) -> (2 * length rest < length S)%nat ->
+  NoDup (map owns S) -> (forall j, In j S -> honest_member recover owns signs G j) -> In i S ->
+  happens stp (ev_injects i v) n0 xs ->
+  (forall j, In j S -> j <> i -> happens stp (ev_delivered owns signs i j h) n0 xs) ->
+  (forall st, nth_error (nodes n1) i = Some st -> forall o, In o (loopq st) -> o_hash o <> h) ->
+  Forall (fun a => length a = 20%nat) (keys G) -> (length (keys G) <= 255)%nat -> e_gsi e = gidx G -> tseq <= e_seq e ->
+  payload_parser k (contract_for c local tseq G) (RZ (e_tchain e)) (RB (payload v)) = Some r ->
+  happens stp (ev_executable recover keccak gov_chain gov_addr owns signs i k (contract_for c local tseq G) r (e_seq e + 1)) n0 xs.
+Proof. exact gov_e2e_quorum_subset. Qed.
+
+(* the hypotheses are satisfiable: a set of FOUR keys in which member 3 has no node (silent); three operators (quorum of 4 = 3) submit
+   the request; the adversary sends node 0 an observation of the digest in the name of member 3 with a signature that does not
+   verify, and a garbage VAA; node 0 receives the other two operators' observations; it publishes a VAA with 3 of 4 signatures, and
+   the token-bridge entry point of a contract holding the four-key set executes the published bytes *)
+Definition gy_G : gset := {| keys := [gx_owns 0; gx_owns 1; gx_owns 3; gx_owns 2]; gidx := 3 |}.
+Definition gy_pre : list nop := [NEnv 0 (ESetGS gy_G); NEnv 1 (ESetGS gy_G); NEnv 2 (ESetGS gy_G)].
+Definition gy_junk : obs := {| o_addr := gx_owns 3; o_hash := dg gx_keccak gx_v; o_sig := repeat xff 65; o_tx := [] |}.
+Definition gy_win : list nop :=
+  [NEnv 1 (EInject gx_v); NEnv 2 (EInject gx_v); NEnv 0 (EInject gx_v); NAdv 0 (GObs gy_junk); NAdv 0 (GVaa [x00]); NDeliver 0 1; NLoop 0 0;
+   NAdv 0 (GObs gy_junk); NDeliver 0 0; NDeliver 0 0].
+
+Example C15_end_to_end_quorum_subset_premises_satisfiable :
+  let stp := fun n x => fst (nstep gx_recover gx_keccak 1 (repeat x00 32) gx_owns gx_signs n x) in
+  let n0 := fst (nrun gx_recover gx_keccak 1 (repeat x00 32) gx_owns gx_signs (ninit 3) gy_pre) in
+  let n1 := fst (nrun gx_recover gx_keccak 1 (repeat x00 32) gx_owns gx_signs n0 gy_win) in
+  let h := dg gx_keccak gx_v in
+  Forall nop_wf gy_pre /\ Forall nop_wf gy_win /\
+  (forall st0, nth_error (nodes n0) 0 = Some st0 -> cur st0 = Some gy_G /\ alookup h (agg st0) = None) /\ gs_wf gy_G /\
+  (forall x, In x gy_win -> target x = 0%nat -> calm_nop x = true /\ no_alias_nop gx_keccak gx_v x) /\
+  Permutation (keys gy_G) (map gx_owns [0; 1; 2]%nat ++ [gx_owns 3]) /\ (2 * length [gx_owns 3] < length [0; 1; 2]%nat)%nat /\
+  NoDup (map gx_owns [0; 1; 2]%nat) /\ (forall j, In j [0; 1; 2]%nat -> honest_member gx_recover gx_owns gx_signs gy_G j) /\
+  happens stp (ev_injects 0 gx_v) n0 gy_win /\
+  happens stp (ev_delivered gx_owns gx_signs 0 1 h) n0 gy_win /\ happens stp (ev_delivered gx_owns gx_signs 0 2 h) n0 gy_win /\
+  (forall st, nth_error (nodes n1) 0 = Some st -> forall o, In o (loopq st) -> o_hash o <> h) /\
+  Forall (fun a => length a = 20%nat) (keys gy_G) /\ e_gsi ex_env = gidx gy_G /\
+  (* ... and the conclusion, computed: node 0 broadcasts bytes carrying 3 signatures (indices 0, 1, 3 of the four-key set) that the
+     token-bridge entry point executes *)
+  exists b, In (SendVAA b) (concat (snd (nrun gx_recover gx_keccak 1 (repeat x00 32) gx_owns gx_signs n0 gy_win))) /\
+    option_map (fun w => map s_idx (sigs w)) (match unmarshal b with Ok w => Some w | Err _ => None end) = Some [0; 1; 3] /\
+    ral_execute gx_recover gx_keccak KMinLevel (contract_for ex_cfg 255 42 gy_G) b =
+    Some (([], [("consistencyLevel"%string, RZ 3); ("minimalConsistencyLevel"%string, RZ 3)]), Some (RZ 43)).
+Proof.
+  assert (Hwf : gs_wf gy_G).
+  { split; [|cbn; lia]. repeat (constructor; [cbn; intuition discriminate|]). constructor. }
+  cbv zeta.
+  split; [repeat (constructor; [exact Hwf|]); constructor|].
+  split; [repeat (constructor; [exact I|]); constructor|].
+  split; [intros st0 H; vm_compute in H; inversion H; subst st0; split; vm_compute; reflexivity|].
+  split; [exact Hwf|].
+  split; [intros x Hx Ht; repeat (destruct Hx as [<-|Hx]; [split; [reflexivity|cbn [no_alias_nop]; auto]|]); destruct Hx|].
+  split; [cbn [keys gy_G map app]; apply perm_skip; apply perm_skip; apply perm_swap|].
+  split; [cbn; lia|].
+  split; [repeat (constructor; [cbn; intuition discriminate|]); constructor|].
+  split; [intros j [<-|[<-|[<-|[]]]]; (split; [cbn; tauto|split; [reflexivity|]]); intros d Hd; unfold Processor.rec, recover_checked; rewrite Hd; reflexivity|].
+  split; [cbn [happens gy_win]; right; right; left; reflexivity|].
+  split; [cbn [happens gy_win]; do 8 right; left; exists 0%nat, []; split; [reflexivity|vm_compute; reflexivity]|].
+  split; [cbn [happens gy_win]; do 5 right; left; exists 1%nat, []; split; [reflexivity|vm_compute; reflexivity]|].
+  split; [intros st H; vm_compute in H; inversion H; subst st; intros o []|].
+  split; [repeat (constructor; [reflexivity|]); constructor|].
+  split; [reflexivity|].
+  eexists. split; [vm_compute; repeat (first [left; reflexivity|right])|]. split; vm_compute; reflexivity.
+Qed.
+
+Print Assumptions C15_e2e_adversarial_steps_are_admissible.
+Print Assumptions C15_e2e_operators_are_a_quorum_of_the_larger_set.
+Print Assumptions C15_governance_end_to_end_any_quorum_subset.
